@@ -76,6 +76,8 @@ struct World {
     seq: Arc<parking_lot::Mutex<u16>>,
     // listeners whose channel the scenario filled up (their receiver "is not reading")
     full: Arc<parking_lot::Mutex<Vec<bool>>>,
+    // target of a rewrite bridge installed on this very transport (created on first use)
+    bt: Arc<parking_lot::Mutex<Option<Arc<Target>>>>,
     _sock: Arc<watch::Sender<Option<IceSocketWrapper>>>,
 }
 
@@ -100,7 +102,7 @@ fn fresh(cfg: &Value, rng: &mut Rng) -> World {
     World {
         t: Arc::new(t), tx: Arc::new(tx), rx: Arc::new(parking_lot::Mutex::new(rx)), c: Arc::new(c),
         seq: Arc::new(parking_lot::Mutex::new(rng.next() as u16)),
-        full: Arc::new(parking_lot::Mutex::new(vec![false; NL])), _sock: Arc::new(sock_tx),
+        full: Arc::new(parking_lot::Mutex::new(vec![false; NL])), bt: Default::default(), _sock: Arc::new(sock_tx),
     }
 }
 
@@ -298,6 +300,23 @@ async fn run_seq(w: &World, seq: &[&Value], rng: &mut Rng) -> Option<(u32, u16)>
                 panic!("TOOL: scheduling point rtp.demux.selected was reached {} times in one receive()", hit.lock().0);
             }
             last_step = end.min(seq.len() - 1);
+        } else if op == "bridge" {
+            // a pass-through rewrite bridge (no rules) on the transport under test
+            if a["on"].as_bool().unwrap() {
+                let existing = w.bt.lock().clone();
+                let tgt = match existing {
+                    Some(t) => t,
+                    None => {
+                        let t = Arc::new(target().await);
+                        *w.bt.lock() = Some(t.clone());
+                        t
+                    }
+                };
+                w.t.bridge_rewrite_rules_to(tgt.t.clone(), RtpRewriteBridgeOptions::default(), Vec::new());
+            } else {
+                w.t.clear_bridge_rewrite();
+            }
+            last_step = i;
         } else if op == "send" || op == "remove" {
             panic!("TOOL: malformed history: {op} without begin");
         } else {
@@ -346,7 +365,7 @@ fn expand(line: &Value) -> Vec<Value> {
         "cfg": line["cfg"], "pre": line["pre"],
         "act": {"op": "pkt", "s": p[0], "pt": p[1], "rid": p[2], "mid": p[3]},
         "exp": {"delivered": {"allowed": p[4], "rule": p[5]}},
-        "ext": {"delivered": p[6], "bound": p[7]},
+        "ext": {"delivered": p[6], "bound": p[7], "fwd": p[15]},
         "cls": {"by": p[8], "closedHit": p[9], "holders": p[10], "provs": p[11], "identified": p[12], "unreg": p[13],
                 "fullHit": p[14], "after": line["after"]},
     })).collect()
@@ -374,13 +393,29 @@ fn run_demux(lines: &[Value], out: &mut NdjsonOut, shard: (usize, usize), hash_p
             rt.block_on(async {
                 let w = fresh(&e["cfg"], &mut rng);
                 let mut seq: Vec<&Value> = pre.iter().collect();
-                seq.push(&e["act"]);
-                let sent = run_seq(&w, &seq, &mut rng).await;
-                let sent = if e["act"]["op"] == "pkt" || e["act"]["op"] == "send" { sent } else { None };
+                let mut fwd = 0usize;
+                let sent = if e["act"]["op"] == "pkt" {
+                    run_seq(&w, &seq, &mut rng).await;
+                    poll(&w, None);
+                    let tgt = w.bt.lock().clone();
+                    if let Some(t) = &tgt {
+                        drain_target(t).await;
+                    }
+                    let sent = run_seq(&w, &[&e["act"]], &mut rng).await;
+                    let tgt = w.bt.lock().clone(); // (a bridge cannot appear during a packet)
+                    if let Some(t) = &tgt {
+                        fwd = drain_target(t).await.len();
+                    }
+                    sent
+                } else {
+                    seq.push(&e["act"]);
+                    let sent = run_seq(&w, &seq, &mut rng).await;
+                    if e["act"]["op"] == "send" { sent } else { None }
+                };
                 let (got, intact) = poll(&w, sent);
                 let nb = e["ext"]["bound"].as_array().map(|a| a.len()).unwrap_or(0);
                 let bound: Vec<bool> = (0..nb).map(|i| w.t.has_listener(w.c.ssrc[i])).collect();
-                (got, intact, bound)
+                (got, intact, bound, fwd)
             })
         });
         match res {
@@ -389,7 +424,7 @@ fn run_demux(lines: &[Value], out: &mut NdjsonOut, shard: (usize, usize), hash_p
                 out.push(&json!({"type": "divergence", "edge": idx, "rule": "NoPanic", "field": "panic",
                                  "observed": msg, "cls": e["cls"], "case": e}));
             }
-            Ok((got, intact, bound)) => {
+            Ok((got, intact, bound, fwd)) => {
                 let obs = json!(got);
                 if !got.is_empty() {
                     deliveries += 1;
@@ -411,7 +446,10 @@ fn run_demux(lines: &[Value], out: &mut NdjsonOut, shard: (usize, usize), hash_p
                                      "cls": e["cls"], "case": e}));
                 } else {
                     // beyond the listed property: the exact choice and the SSRC binding table
-                    let ext_obs = json!({"delivered": obs, "bound": bound});
+                    let mut ext_obs = json!({"delivered": obs, "bound": bound});
+                    if e["ext"].get("fwd").is_some() {
+                        ext_obs["fwd"] = json!(fwd);
+                    }
                     if ext_obs != e["ext"] {
                         drift += 1;
                         if drift <= 20 {
